@@ -39,7 +39,8 @@ def SMsg.expected (m : SMsg) : Out :=
 
 /-- the message respects the negotiated limits -/
 def SMsg.fits (cfg : Cfg) (m : SMsg) : Prop :=
-  m.inter.length ≤ cfg.maxChunkCount ∧ (m.abort = false → m.body.length ≤ cfg.maxMessageSize)
+  exceeds cfg.chunk0 m.inter.length cfg.maxChunkCount = false ∧
+  (m.abort = false → exceeds cfg.size0 m.body.length cfg.maxMessageSize = false)
 
 /-- guard of the partial theorem: the duplicate filter of `mergeChunks` skips
     no chunk — the message is aborted, or has a single chunk, or its first
@@ -107,9 +108,8 @@ theorem step1_good (cfg : Cfg) (m : SMsg) (hfit : m.fits cfg) (hg : m.noDrop)
         · rw [ha'] at hg; cases hg
         · left; simp [SMsg.chunks, SMsg.interChunks, hg]
         · right; exact hg
-      have hlen : ¬ (m.body.length > cfg.maxMessageSize) := by
-        have := hfit.2 ha'
-        omega
+      have hlen : ¬ (exceeds cfg.size0 m.body.length cfg.maxMessageSize = true) := by
+        rw [hfit.2 ha']; simp
       simp only [if_neg hA, if_neg hct, hall, hmerge, if_neg hlen, SMsg.expected, ha', hc]
       exact ⟨by simp, Or.inl ⟨rfl, rfl⟩⟩
   · -- c is an intermediate chunk
@@ -124,12 +124,13 @@ theorem step1_good (cfg : Cfg) (m : SMsg) (hfit : m.fits cfg) (hg : m.noDrop)
     have hmem : c ∈ m.interChunks := by rw [← hh.1]; simp
     have hct : c.ct = ctC := interChunks_ct m hmem
     have hA : ¬ c.ct = ctA := by rw [hct]; decide
-    have hlen : ¬ ((buf ++ [c]).length > cfg.maxChunkCount) := by
+    have hlen : ¬ (exceeds cfg.chunk0 (buf ++ [c]).length cfg.maxChunkCount = true) := by
       have h1 : (buf ++ c :: R').length = m.inter.length := by
         rw [hh.1]; simp [SMsg.interChunks]
-      have h2 := hfit.1
-      simp only [List.length_append, List.length_cons, List.length_nil] at h1 ⊢
-      omega
+      have h3 : (buf ++ [c]).length ≤ m.inter.length := by
+        simp only [List.length_append, List.length_cons, List.length_nil] at h1 ⊢
+        omega
+      rw [exceeds_mono hfit.1 h3]; simp
     unfold step1
     simp only [if_neg hA, if_pos hct, if_neg hlen]
     refine ⟨trivial, Or.inr ⟨by simp, ?_⟩⟩
